@@ -346,3 +346,20 @@ func (l *Listener) Addr() net.Addr { return Addr("mem:listener") }
 
 // Inject hands a connection to the accept loop.
 func (l *Listener) Inject(c net.Conn) { l.ch <- c }
+
+// OutLen returns the number of bytes written so far.
+func (c *Conn) OutLen() int {
+	c.mu.Lock()
+	defer c.mu.Unlock()
+	return len(c.out)
+}
+
+// OutSince returns a copy of the bytes written after offset from.
+func (c *Conn) OutSince(from int) []byte {
+	c.mu.Lock()
+	defer c.mu.Unlock()
+	if from >= len(c.out) {
+		return nil
+	}
+	return append([]byte(nil), c.out[from:]...)
+}
